@@ -33,8 +33,11 @@ Cols(s)  == SumSeq(Splits[s].nt) + SumSeq(Splits[s].nte)
 
 (* ---------------- exact content of the views (the oracle the replay multiplies with) ------------- *)
 \* Path loss p is a POWER relation; amplitudes are rational so that sqrt is exact.
-Amp(p, k, l)  == IF p = 0 THEN ROne ELSE <<1, 1 + ((2 * k + 3 * l + p) % 4)>>     \* user l -> user k
-AmpE(p, k, e) == IF p = 0 THEN ROne ELSE <<1, 2 + ((k + 2 * e + p) % 3)>>        \* ext source e -> user k
+\* Path-loss id 3 has the user part of id 1 and the external-interference part of id 2 (changing only one part).
+MainOf(p) == IF p = 3 THEN 1 ELSE p
+ExtOf(p)  == IF p = 3 THEN 2 ELSE p
+Amp(p, k, l)  == IF p = 0 THEN ROne ELSE <<1, 1 + ((2 * k + 3 * l + MainOf(p)) % 4)>>     \* user l -> user k
+AmpE(p, k, e) == IF p = 0 THEN ROne ELSE <<1, 2 + ((k + 2 * e + ExtOf(p)) % 3)>>          \* ext source e -> user k
 PlMain(p, s)  == [k \in 1..KOf(s) |-> [l \in 1..KOf(s) |-> RSq(Amp(p, k, l))]]
 PlExt(p, s)   == [k \in 1..KOf(s) |-> [e \in 1..Len(Splits[s].nte) |-> RSq(AmpE(p, k, e))]]
 
@@ -106,6 +109,13 @@ SetPostFilter(f) ==
   /\ ret' = [op |-> "SetPostFilter", a |-> <<f>>]
   /\ UNCHANGED <<inited, split, pl, plBig, cH, cBigH, noise, lastNoise>>
 
+\* Rejected calls: init_from_channel_matrix with a matrix of the right shape but Nr / Nt that do not have K entries
+\* (ValueError), noise_var = negative value (AssertionError).  Nothing may change.
+Rejected(kind) ==
+  /\ "Rejected" \in Acts /\ inited
+  /\ ret' = [op |-> "Rejected", a |-> <<kind>>]
+  /\ UNCHANGED <<inited, split, pl, plBig, cH, cBigH, noise, filt, cBigW, lastNoise>>
+
 (* ---------------------------------------- readers ----------------------------------------------- *)
 \* H getter of the base class (fills _H_with_pathloss); the ExtInt class overrides H without a cache.
 BaseH == IF pl = 0 THEN [c |-> cH, v |-> Snap("cur", split, 0, split)]
@@ -156,6 +166,7 @@ Next ==
   \/ \E p \in 0..NPl : SetPathloss(p)
   \/ \E n \in {"none", "zero", "pos"} : SetNoiseVar(n)
   \/ \E f \in 0..NFilt : SetPostFilter(f)
+  \/ \E kd \in {"initK", "noiseNeg"} : Rejected(kd)
   \/ ReadH \/ ReadBigH \/ GetHkl \/ GetHk \/ BigHNoExt \/ HNoExt \/ GetHkNoExt
   \/ \E d \in 1..NData : Corrupt(d)
 
